@@ -26,7 +26,11 @@ func verifNameSources(n, maxNames int) []verifNameSource {
 		s := verifNameSource{addr: addrs[i]}
 		s.fail, _ = verifFail(addrs[i])
 		if !s.fail {
-			k := verifrt.Choice(addrs[i]+".count", maxNames+1)
+			m := maxNames
+			if i > 0 && verifrt.Tier() == 0 && m > 1 {
+				m-- // quick tier: the later upstreams report one name less (every name comparison forks)
+			}
+			k := verifrt.Choice(addrs[i]+".count", m+1)
 			for j := 0; j < k; j++ {
 				s.names = append(s.names, verifName(addrs[i]+".name", 1))
 			}
@@ -107,4 +111,67 @@ func VerifC18_LookupdTopicsUnion() {
 		}
 		verifrt.Assert(u.unknown == 0, "lookupd-topics:no-other-endpoint-asked")
 	})
+}
+
+// The same fan-out with the executor choosing the interleaving of the fetch goroutines and
+// the caller (bounded preemptions): whatever the schedule, no reply and no error is lost and
+// the call returns (the shared slices, the error list and the aggregate map are only touched
+// under the fetch lock).
+func VerifC18_FetchInterleavings() {
+	var ci *ClusterInfo
+	var srcs []verifNameSource
+	var addrs []string
+	which := 0
+	var producers Producers
+	var depth [2]int64
+	var fails [2]bool
+	verifrt.Atomic(func() {
+		u := verifNewEnv()
+		ci = verifClusterInfo(u)
+		which = verifrt.Choice("function", 2)
+		if which == 0 {
+			srcs = verifNameSources(2, 1)
+			for _, s := range srcs {
+				addrs = append(addrs, s.addr)
+				u.script("http://"+s.addr+"/topics", s.fail, 0, verifNamesReply{Topics: s.names})
+			}
+			return
+		}
+		for i := 0; i < 2; i++ {
+			p := &Producer{BroadcastAddress: []string{"b0", "b1"}[i], HTTPPort: 4151, TCPPort: 4150, Hostname: []string{"hb", "ha"}[i]}
+			producers = append(producers, p)
+			fails[i], _ = verifFail(p.HTTPAddress())
+			r := verifNodeStats(p.HTTPAddress(), 1, false)
+			depth[i] = r.Topics[0].Channels[0].Depth
+			u.script("http://"+p.HTTPAddress()+"/stats?format=json&include_clients=false", fails[i], 0, r)
+		}
+	})
+	if which == 0 {
+		got, err := ci.GetLookupdTopics(addrs)
+		verifCheckUnion("interleaved-topics", srcs, got, err)
+		return
+	}
+	topics, chans, err := ci.GetNSQDStats(producers, "", "", false)
+	failed := 0
+	var sum int64
+	for i := range fails {
+		if fails[i] {
+			failed++
+		} else {
+			sum += depth[i]
+		}
+	}
+	pe, partial := verifIsPartial(err)
+	if failed == 2 {
+		verifrt.Assert(err != nil && !partial && topics == nil && chans == nil, "interleaved-stats:all-failed")
+		return
+	}
+	verifrt.Assert((err == nil) == (failed == 0), "interleaved-stats:error-iff-some-failed")
+	if failed > 0 {
+		verifrt.Assert(partial && len(pe.Errors()) == failed, "interleaved-stats:one-error-per-failed-node")
+	}
+	verifrt.Assert(len(topics) == 2-failed, "interleaved-stats:no-reply-lost")
+	c := chans["t:c"]
+	verifrt.Assert(c != nil && len(c.NodeStats) == 2-failed && c.Depth == sum, "interleaved-stats:sum-over-the-answering-nodes")
+	verifrt.Reach("interleaved-stats:both-answer", failed == 0)
 }
